@@ -322,6 +322,16 @@ let op_hist f =
         (match parse (text_of_field_nn arg) with
          | POk u -> slot.(k) <- Some u; show 0 k
          | PSyntax _ -> slot.(k) <- None; show 1 k)
+      | 'v' ->   (* v<k>=<off>,<len>,<text>: parse a view of a text; the C driver keeps ONE buffer per distinct text of the request *)
+        (match String.split_on_char ',' arg with
+         | [off; len; t] ->
+           let off = int_of_string off and len = int_of_string len in
+           let rec drop n l = if n <= 0 then l else (match l with [] -> [] | _ :: r -> drop (n - 1) r) in
+           let rec take n l = if n <= 0 then [] else (match l with [] -> [] | x :: r -> x :: take (n - 1) r) in
+           (match parse (take len (drop off (text_of_field_nn t))) with
+            | POk u -> slot.(k) <- Some u; show 0 k
+            | PSyntax _ -> slot.(k) <- None; show 1 k)
+         | _ -> Buffer.add_string buf "badop")
       | 'a' | 'r' ->
         (match List.map int_of_string (String.split_on_char ',' arg) with
          | [i; j; o] when i >= 0 && j >= 0 && i < nslot && j < nslot && k <> i && k <> j
